@@ -17,6 +17,11 @@ func generate(plugin *protogen.Plugin, req generateRequest) error {
 }
 
 func generateSingle(plugin *protogen.Plugin, req generateRequest) error {
+	if len(req.ProtoDesc.Messages) == 0 {
+		// nothing to generate code for (a file of enums or extensions only): an output file would hold
+		// nothing but unused imports
+		return nil
+	}
 	type genArgsSingle struct {
 		Now                time.Time
 		Pwd                string
